@@ -144,6 +144,43 @@ def _mt_spec(cfg, i, path):
     return same_result and same_content and n_changes == 0
 
 
+# ------------------------------------------------------------------ replacements that Python's == cannot see (True == 1 == 1.0, False == 0): they change the stored document all the same
+EQ_CASES = {
+    'TrackedDict': [('__setitem__', {'a': 1, 'f': 0}, ('a', True)), ('__setitem__', {'a': 1, 'f': 0}, ('f', False)), ('update', {'a': 1}, ({'a': 1.0},)), ('__ior__', {'f': 0}, ({'f': False},)),
+                    ('update', {'a': True}, ({'a': 1},)), ('__setitem__', {'d': {'on': 1}}, ('d', {'on': True})), ('__setitem__', {'l': [0, 1]}, ('l', [False, True]))],
+    'TrackedList': [('__setitem__', [1, 0], (0, True)), ('__setitem__', [1, 0], (slice(0, 2), [True, False])), ('reverse', [True, 1], ()), ('__setitem__', [[1]], (0, [True])),
+                    ('__setitem__', [1.0], (0, 1)), ('sort', [1, True, 0], ())],
+    'TrackedArray': [('__setitem__', [1, 0], (0, True)), ('reverse', [True, 1], ()), ('sort', [1, True, 0], ())],
+}
+
+
+def _eq_configs(tier):
+    return [dict(cls=c, case=k) for c, rows in EQ_CASES.items() for k in range(len(rows))]
+
+
+def _eq_case(cfg, values):
+    def call():
+        import json
+        cls, base = TRACKED[cfg['cls']]
+        method, recv, args = EQ_CASES[cfg['cls']][cfg['case']]
+        owner = FakeOwner()
+        attr = types.SimpleNamespace(name='j', py_type=types.SimpleNamespace(item_type=int))
+        t = cls(owner, attr, copy.deepcopy(recv)); plain = copy.deepcopy(recv)
+        doc_before = json.dumps(plain, sort_keys=True)
+        getattr(plain, method)(*copy.deepcopy(args))
+        owner.changes[:] = []
+        getattr(t, method)(*copy.deepcopy(args))
+        return doc_before, json.dumps(plain, sort_keys=True), json.dumps(t.get_untracked(), sort_keys=True), len(owner.changes)
+    return Case(call, {}, [])
+
+
+def _eq_spec(cfg, i, path):
+    if path.outcome != 'ret': return False
+    doc_before, doc_plain, doc_tracked, n_changes = path.value
+    if doc_before == doc_plain: return doc_tracked == doc_plain                 # not a change of the document (a stable sort of equal items): nothing to report
+    return doc_tracked == doc_plain and n_changes >= 1
+
+
 # ------------------------------------------------------------------ Entity._attr_changed_
 _M = None
 
@@ -361,6 +398,8 @@ CONTRACTS = [
     Contract('tracked_method_table', ['pony.orm.ormtypes:TrackedDict', 'pony.orm.ormtypes:TrackedList', 'pony.orm.ormtypes:TrackedArray', 'pony.orm.ormtypes:tracked_method',
                                       'pony.orm.ormtypes:TrackedValue.make', 'pony.orm.ormtypes:TrackedValue._changed_'], _mt_configs, _mt_case,
              [('mutators_report_change_and_wrap_arguments_readers_do_not', _mt_spec)], doc='every method of dict / list on each tracked class'),
+    Contract('tracked_method.python_equal_replacements', ['pony.orm.ormtypes:tracked_method', 'pony.orm.ormtypes:TrackedDict', 'pony.orm.ormtypes:TrackedList', 'pony.orm.ormtypes:TrackedArray'],
+             _eq_configs, _eq_case, [('a_replacement_by_an_equal_value_of_another_json_type_is_reported', _eq_spec)], level='bounded', bound='16 replacements (bool <-> int <-> float, at depth 1 and 2, item and slice assignment, update, |=, reverse, sort) on the three tracked classes'),
     Contract('Entity._attr_changed_', 'pony.orm.core:Entity._attr_changed_', _ac_configs, _ac_case,
              [('marks_object_modified_and_queues_it_once', _ac_spec)], allowed_exc=()),
     Contract('in_place_change_is_persisted', ['pony.orm.ormtypes:TrackedDict', 'pony.orm.ormtypes:TrackedList', 'pony.orm.ormtypes:TrackedArray', 'pony.orm.core:Attribute.get'],
